@@ -40,6 +40,76 @@ CLAIMED = {
         design="3/C04"),
 }
 
+CLAIMED.update({
+    "C28": dict(
+        engine="kani",
+        technique="Kani/CBMC bounded model checking (SAT) of els::util::pos_to_byte_index per UTF-8 width pattern of the document: every code point "
+                  "of each class (newlines included), every u32 line/character symbolic; LSP 3.17 reference written in the harness; one inductive step covers any edit history",
+        category="other",
+        text="For every document of each listed width pattern (quick: all patterns of up to 2 characters plus selected ones up to 5; thorough: all patterns "
+             "of up to 4 characters) and every LSP position, the SAT solver shows that the byte index the server uses equals the LSP 3.17 reference (UTF-16 "
+             "columns, past-the-end column = end of line, past-the-end line = end of text), is a char boundary, and that ordered ranges give start <= end - "
+             "the preconditions under which String::replace_range performs exactly the client's edit; the whole step (two conversions + replace_range on a real "
+             "String) is compared byte for byte with the client's edit on small shapes in the thorough tier. Because the server copy is a function of "
+             "(previous copy, change), one step for every state covers histories of any length.",
+        note="Trusts Kani/CBMC/CaDiCaL, std's str::char_indices and String::replace_range as compiled, and the LSP reference in props/c28.py. "
+             "FileCache::incremental_update itself (Shared<Dict>, VFS, Lexer, version check, the loop over content_changes) is read, not encoded: a change "
+             "to how it calls pos_to_byte_index/replace_range is outside the check. Lines end at '\\n' only.",
+        design="3/C28"),
+    "C25": dict(
+        engine="kani",
+        technique="Kani/CBMC bounded model checking of src/dummy.rs Message/MessageStream over a stream that splits reads and writes (symbolic chunk size per "
+                  "call or concrete patterns), symbolic payload bytes per concrete payload length, symbolic payload length for the 16-bit size field; CrossHair (z3) on "
+                  "MessageStream cut from src/scripts/repl_server.py over a socket returning arbitrary prefixes",
+        category="other",
+        text="Framing only: for the listed payload lengths (0..3 quick, ..7 thorough), every instruction byte, every payload byte and every split of the byte "
+             "stream within the stated patterns, send_msg writes inst + 2-byte big-endian length + payload, recv_msg returns exactly the message sent and leaves "
+             "the stream at the frame boundary (two and three frames back to back included), a truncated frame is an error; the header size field is compared with "
+             "the payload length for every length up to 2^17 (the >65535 case is a listed known finding). The Python server side is decided by CrossHair per shape. "
+             "DummyVM::eval end to end (processes, TCP, compilation, CodeObj::into_script) is not decided.",
+        note="Trusts Kani/CBMC, std::io::{Read::read_exact, Write::write_all} as compiled, CrossHair+z3. Python harness: ASCII payloads, the first 4 (quick) / 6 "
+             "(thorough) socket calls take a symbolic chunk size, later calls transfer everything. Payload bytes beyond the listed lengths only through the size-field obligation.",
+        design="3/C25"),
+    "C11": dict(
+        engine="kani",
+        technique="Kani/CBMC bounded model checking of TokenKind::precedence / is_right_associative / category over two symbolic token kinds (all pairs of the enum), "
+                  "oracle = the operator classes of the property statement",
+        category="other",
+        text="Kernel-level partial claim: for every pair of token kinds the SAT solver shows that the precedence table orders the operator classes exactly as the "
+             "property lists them, that operators of one class share one precedence, that `prev.precedence() >= op.precedence()` (the comparison the operator stack uses) "
+             "holds exactly when prev's class is not looser (left grouping), that no operator of the table is right-associative, and that every BinOp-category kind is in "
+             "the table. The operator-stack reduction (parse.rs), prefix-operator operands and the lexer's prefix/infix classification by spacing are not decided.",
+        note="Trusts Kani/CBMC and the class list in props/c11.py (transcribed from the property statement). SubOp (never produced by the lexer) is exempt and listed.",
+        design="3/C11"),
+    "C26": dict(
+        engine="py2smt",
+        technique="symbolic execution of the real lib/core/_erg_{int,nat,float,bool}.py (ast -> z3, Python data-model dispatch) per operator and operand-class pair, "
+                  "operand values symbolic (unbounded ints, all binary64); z3 decides value / class / Nat-invariant obligations; counterexamples replayed with the real modules; "
+                  "the interpreter is validated against the real modules on concrete vectors on every run",
+        category="other",
+        text="For every operator (+ - * // / % ** comparisons, unary, abs) and every pair of operand classes among Nat, Int, Float, Bool, their mutable cells and plain "
+             "Python values on the left, and for the listed methods (succ, pred, saturating_sub, inc, dec, update with an arbitrary callback result, copy), z3 shows for "
+             "all operand values that the wrapper returns the value the builtin operation returns on the underlying values (an exception where the builtin returns a value "
+             "counts as a disagreement), a result of the numeric kind its Erg declaration promises (non-negative where Nat is promised), and that no Nat or Nat! holds a "
+             "negative value afterwards. Str, List, Dict, Set, Range wrappers are outside.",
+        note="Trusts engines/py2smt.py (validated per run against python3.11 on concrete vectors: class, exception and value), z3, and the declared-result table in props/pyrt.py "
+             "(derived from classes.rs; the lines it was read from are re-checked on every run). int->float conversion, int true division, float // % and float->int truncation "
+             "are uninterpreted functions with sign/finiteness lemmas, shared by implementation and reference; int operands bounded to 2^53 where floats are involved; float ** and "
+             "negative integer exponents are outside. 'Instance of the declared class' is read as: the declared wrapper class or the builtin it wraps (see DESIGN).",
+        design="3/C26"),
+    "C02": dict(
+        engine="py2smt",
+        technique="symbolic execution of the real lib/core wrappers (ast -> z3): for every operator and operand-class pair the type checker accepts, z3 decides that no "
+                  "TypeError/AttributeError/NameError/ValueError/OverflowError can escape for any operand values; counterexamples replayed with the real modules",
+        category="other",
+        text="Kernel-level partial claim on the one anchored mechanism that is encodable, the runtime numeric wrappers: for every operator and every pair of numeric operand "
+             "classes that type-checks (mutable cells and plain Python values included; `%` and `**` on a mutable cell excluded because the checker rejects them), for all "
+             "operand values, an exception escapes only where the builtin operation on the same values raises the same one (ZeroDivisionError). The type checker, user "
+             "functions, method calls on other classes, Str/List operations are not decided.",
+        note="Same trusted base as C26 (shared engine run, different assertion). Which operand pairs type-check was established with the built compiler and is recorded in props/pyrt.py.",
+        design="3/C02"),
+})
+
 NOT_APPLICABLE = {}
 
 
@@ -89,6 +159,8 @@ def main():
              "kind_free_text": KANI},
             {"name": "mir2smt", "path": "engines/mir2smt.py", "serves_properties": sorted(p for p, c in CLAIMED.items() if "mir2smt" in c["engine"]),
              "kind_free_text": MIR},
+            {"name": "py2smt", "path": "engines/py2smt.py", "serves_properties": sorted(p for p, c in CLAIMED.items() if "py2smt" in c["engine"]),
+             "kind_free_text": PY},
             {"name": "native", "path": "engines/native.py", "serves_properties": sorted(p for p, c in CLAIMED.items() if "mir2smt" in c["engine"]),
              "kind_free_text": "replay of solver counterexamples and translation-validation vectors against the real crate (cargo test on the scratch copy)"},
         ],
